@@ -1636,7 +1636,9 @@ def check_C16(res):
 
 C15_THEOREMS = ['Blf.Props.C15_init', 'Blf.Props.C15_append_container', 'Blf.Props.C15_read', 'Blf.Props.C15_read_preserves', 'Blf.Props.C15_seek_preserves', 'Blf.Props.C15_setFileSize_preserves', 'Blf.Props.C15_drop_preserves', 'Blf.Props.C15_drop_safe', 'Blf.Props.C15_read_flags',
                 'Blf.Props.C15_byte_write', 'Blf.Props.C15_byte_read', 'Blf.Props.C15_write_session_fifo']
-C16_THEOREMS = ['Blf.Props.C16_fifo', 'Blf.Props.C16_backpressure', 'Blf.Props.C16_eos', 'Blf.Props.C16_abort_releases', 'Blf.Props.C16_positions']
+C16_THEOREMS = ['Blf.Props.C16_fifo', 'Blf.Props.C16_backpressure', 'Blf.Props.C16_eos', 'Blf.Props.C16_abort_releases', 'Blf.Props.C16_positions',
+                'Blf.Props.C16_counters32_refine', 'Blf.Props.C16_fifo_wrap', 'Blf.Props.C16_never_null_while_objects_remain_wrap',
+                'Blf.Props.C16_abort_releases_wrap', 'Blf.Props.C16_positions_wrap']
 
 
 # ================================================================================================ file level
